@@ -9,7 +9,7 @@
 From Coq Require Import List NArith Bool Lia Sorted.
 Import ListNotations.
 Require Import EV.Base EV.ListN EV.Access EV.Query EV.SlotMap EV.Reserve EV.HList EV.Loop EV.World EV.SlotMapGet
-  EV.ArchProofs EV.WorldFrame EV.Store EV.Graph EV.Effects.
+  EV.ArchProofs EV.QueryProofs EV.WorldFrame EV.Store EV.Graph EV.Effects.
 Open Scope N_scope.
 
 (* ---------- WInv only depends on the structure ---------- *)
@@ -174,3 +174,281 @@ Proof.
     + split; [exact (proj1 (proj2 Hs))|eapply GevKinds_registries; eauto].
 Qed.
 End WithBeh.
+
+(* ---------- the registration and sending layer keeps the invariant too ---------- *)
+Definition RInv (w : world) : Prop := WInv w /\ GevKinds w.
+
+Lemma RInv_ext w w' : w_ents w' = w_ents w -> w_archs w' = w_archs w -> w_aby w' = w_aby w -> w_gev w' = w_gev w -> RInv w -> RInv w'.
+Proof.
+  intros He Ha Hb Hg [HW HK]. split; [eapply WInv_ext; eauto|]. unfold GevKinds in *. now rewrite Hg.
+Qed.
+Lemma ev_drop_fields w t tag ev : w_ents (ev_drop w t tag ev) = w_ents w /\ w_archs (ev_drop w t tag ev) = w_archs w /\
+  w_aby (ev_drop w t tag ev) = w_aby w /\ w_gev (ev_drop w t tag ev) = w_gev w.
+Proof. unfold ev_drop, drop_cval. repeat break_match; repeat split. Qed.
+Lemma RInv_ev_drop w t tag ev : RInv w -> RInv (ev_drop w t tag ev).
+Proof. destruct (ev_drop_fields w t tag ev) as (A & B & C & D). now apply RInv_ext. Qed.
+
+Lemma gbi_insert {V} (f : key -> V) (m : smap V) k m' i k' v :
+  insert_with f m = Some (k, m') -> get_by_index m' i = Some (k', v) -> v = f k \/ get_by_index m i = Some (k', v).
+Proof.
+  unfold insert_with, get_by_index. destruct (sget (slots m) (next_free m)) as [s|] eqn:Es.
+  - intros H. inversion H; subst; clear H. cbn [slots]. destruct (N.eq_dec (next_free m) i) as [<-|Hne].
+    + erewrite sget_supd_eq by eauto. cbn [val]. intros X. inversion X. now left.
+    + rewrite sget_supd_neq by auto. now right.
+  - destruct (N.of_nat (length (slots m)) =? U32MAX); [discriminate|]. intros H. inversion H; subst; clear H. cbn [slots].
+    destruct (sget (slots m) i) as [s|] eqn:Ei.
+    + rewrite (sget_app_old _ _ _ _ Ei). now right.
+    + destruct (sget (slots m ++ [_]) i) as [s|] eqn:Ea; [|discriminate]. apply sget_app_inv in Ea as [Ea|[_ ->]]; [congruence|].
+      cbn [val]. intros X. inversion X. now left.
+Qed.
+
+Section Ops.
+Variable beh : hinfo -> logent -> N -> script.
+
+Lemma flush_RInv q w : RInv w -> RInv (res_world (flush beh q w)).
+Proof.
+  intros [HW HK]. unfold flush, flush_loop.
+  destruct (Loop.flush wst qitem (run_w beh) unwind_w FUEL q (w, None) []) as [[[tr [w1 fl]] oc]|] eqn:E; [|split; assumption].
+  destruct (flush_WInv beh _ _ _ _ _ _ E HW HK) as [HW1 HK1]. cbn [fst] in HW1, HK1.
+  destruct oc; [|destruct fl; split; assumption]. cbn [res_world]. apply (RInv_ext w1); try reflexivity. split; assumption.
+Qed.
+
+Lemma add_global_event_S f tag w : add_global_event beh (S f) tag w =
+  match alookup tag (w_gby w) with
+  | Some k => ROk k w
+  | None =>
+      match insert_with (fun _ => mkE tag (gkind tag)) (w_gev w) with
+      | None => RFail (FPanic 5) w
+      | Some (k, m) =>
+          let w1 := set_gev w m (ainsert tag k (w_gby w)) in
+          let w2 := set_glists w1 (nrepeat_to (w_glists w1) (N.to_nat (fst k) + 1) hl_new) in
+          do (_, w3) <- send_global beh f G_ADDGE (mkEv 0 0 k) w2;
+          ROk k w3
+      end
+  end.
+Proof. reflexivity. Qed.
+Lemma send_global_S f tag ev w : send_global beh (S f) tag ev w =
+  match add_global_event beh f tag w with
+  | RFail e w' => RFail e (ev_drop w' false tag ev)
+  | ROk k w1 =>
+      let w2 := if (10 <? tag) then note w1 tag (ev_id ev) else w1 in
+      flush beh [mkQ false (fst k) KEY_NULL ev] w2
+  end.
+Proof. reflexivity. Qed.
+
+Lemma gev_RInv fuel : forall tag w, RInv w ->
+  RInv (res_world (add_global_event beh fuel tag w)) /\ forall ev, RInv (res_world (send_global beh fuel tag ev w)).
+Proof.
+  induction fuel as [|f IH]; intros tag w HR; [split; [exact HR|intros; exact HR]|].
+  assert (Hadd : RInv (res_world (add_global_event beh (S f) tag w))).
+  { rewrite add_global_event_S. destruct (alookup tag (w_gby w)); [exact HR|].
+    destruct (insert_with (fun _ => mkE tag (gkind tag)) (w_gev w)) as [[k m]|] eqn:Ei; [|exact HR].
+    cbn zeta. set (w2 := set_glists _ _).
+    assert (HR2 : RInv w2).
+    { destruct HR as [HW HK]. split; [eapply WInv_ext; [| | |exact HW]; reflexivity|].
+      intros i k' info Hg. unfold w2 in Hg. cbn [w_gev set_glists set_hreg set_gev] in Hg.
+      destruct (gbi_insert _ _ _ _ _ _ _ Ei Hg) as [->|Hold]; [|eauto]. cbn [e_kind]. unfold gkind. now destruct (tag =? G_SPAWN). }
+    destruct (IH G_ADDGE w2 HR2) as [_ Hs]. specialize (Hs (mkEv 0 0 k)).
+    destruct (send_global beh f G_ADDGE (mkEv 0 0 k) w2); exact Hs. }
+  split; [exact Hadd|]. intros ev. rewrite send_global_S.
+  destruct (IH tag w HR) as [Ha _]. destruct (add_global_event beh f tag w) as [k w1|e w1]; cbn [res_world] in *.
+  - apply flush_RInv. destruct (10 <? tag); [|exact Ha]. apply (RInv_ext w1); try reflexivity. exact Ha.
+  - now apply RInv_ev_drop.
+Qed.
+
+Lemma send_global_RInv tag ev w : RInv w -> RInv (res_world (send_global beh RFUEL tag ev w)).
+Proof. intros H. exact (proj2 (gev_RInv RFUEL tag w H) ev). Qed.
+Lemma add_global_event_RInv tag w : RInv w -> RInv (res_world (add_global_event beh RFUEL tag w)).
+Proof. intros H. exact (proj1 (gev_RInv RFUEL tag w H)). Qed.
+
+Lemma rbind_RInv {A B} (r : res A) (f : A -> world -> res B) :
+  RInv (res_world r) -> (forall a w, RInv w -> RInv (res_world (f a w))) -> RInv (res_world (rbind r f)).
+Proof. intros H1 H2. destruct r as [a w|e w]; cbn [rbind res_world] in *; auto. Qed.
+
+Lemma add_component_RInv tag w : RInv w -> RInv (res_world (add_component beh tag w)).
+Proof.
+  intros HR. unfold add_component. destruct (alookup tag (w_cby w)); [exact HR|].
+  destruct (insert_with _ (w_comps w)) as [[k m]|]; [|exact HR].
+  apply rbind_RInv; [|intros; assumption]. apply send_global_RInv. apply (RInv_ext w); try reflexivity. exact HR.
+Qed.
+
+Lemma add_targeted_event_RInv tag w : RInv w -> RInv (res_world (add_targeted_event beh tag w)).
+Proof.
+  intros HR. unfold add_targeted_event. apply rbind_RInv.
+  - repeat break_match; try exact HR; (apply rbind_RInv; [now apply add_component_RInv|intros; assumption]).
+  - intros kind w0 HR0. destruct (alookup tag (w_tby w0)); [exact HR0|].
+    destruct (insert_with _ (w_tev w0)) as [[k m]|]; [|exact HR0].
+    apply rbind_RInv; [|intros; assumption]. apply send_global_RInv.
+    destruct kind; apply (RInv_ext w0); try reflexivity; exact HR0.
+Qed.
+
+Lemma send_to_RInv tag target ev w : RInv w -> RInv (res_world (send_to beh tag target ev w)).
+Proof.
+  intros HR. unfold send_to. pose proof (add_targeted_event_RInv tag w HR) as H.
+  destruct (add_targeted_event beh tag w) as [k w1|e w1]; cbn [res_world] in *; [now apply flush_RInv|now apply RInv_ev_drop].
+Qed.
+
+(* the top-level calls of the differential harness that do not remove registrations *)
+Theorem op_spawn_RInv w : RInv w -> RInv (res_world (op_spawn beh w)).
+Proof.
+  intros HR. unfold op_spawn. apply rbind_RInv.
+  - unfold reserve. repeat break_match; cbn [res_world]; exact HR.
+  - intros id w1 HR1. apply rbind_RInv; [now apply send_global_RInv|]. intros [] w2 HR2. cbn [res_world]. apply (RInv_ext w2); try reflexivity. exact HR2.
+Qed.
+Theorem op_insert_RInv e ktag w : RInv w -> RInv (res_world (op_insert beh e ktag w)).
+Proof.
+  intros HR. unfold op_insert. destruct (new_cval w ktag) as [v w1] eqn:E. apply send_to_RInv.
+  assert (w1 = snd (new_cval w ktag)) by now rewrite E. subst w1. unfold new_cval. destruct (ctag_zst ktag); [exact HR|].
+  cbn [snd fresh_serial]. apply (RInv_ext w); try reflexivity. exact HR.
+Qed.
+Theorem op_remove_RInv e ktag w : RInv w -> RInv (res_world (op_remove beh e ktag w)).
+Proof. intros HR. unfold op_remove. now apply send_to_RInv. Qed.
+Theorem op_despawn_RInv e w : RInv w -> RInv (res_world (op_despawn beh e w)).
+Proof. intros HR. unfold op_despawn. now apply send_to_RInv. Qed.
+Theorem op_send_RInv gtag w : RInv w -> RInv (res_world (op_send beh gtag w)).
+Proof. intros HR. unfold op_send. cbn [fresh_serial]. apply send_global_RInv. apply (RInv_ext w); try reflexivity. exact HR. Qed.
+Theorem op_send_to_RInv e ttag w : RInv w -> RInv (res_world (op_send_to beh e ttag w)).
+Proof. intros HR. unfold op_send_to. cbn [fresh_serial]. apply send_to_RInv. apply (RInv_ext w); try reflexivity. exact HR. Qed.
+End Ops.
+
+(* ---------- add_handler ---------- *)
+Lemma RInv_structure w w' : structure w' = structure w -> w_gev w' = w_gev w -> RInv w -> RInv w'.
+Proof. intros Hs Hg [HW HK]. split; [eapply WInv_structure; eauto|]. unfold GevKinds in *. now rewrite Hg. Qed.
+
+Lemma archs_register_handler_structure w hk : structure (archs_register_handler w hk) = structure w /\ w_gev (archs_register_handler w hk) = w_gev w.
+Proof.
+  unfold archs_register_handler. split.
+  - apply (fold_left_pres structure). intros w' [ai x].
+    destruct (slab_get (w_archs w') ai) as [a|] eqn:Ha; [|reflexivity]. destruct (sm_get hk (w_hs w')) as [h|]; [|reflexivity].
+    pose proof (register_handler_core ai a h) as Hc. destruct (register_handler ai a h) as [a' h']. cbn [fst] in Hc.
+    destruct Hc as (Hc & Hr & Hi & Hre & _).
+    unfold structure. cbn [w_ents w_comps w_archs w_aby set_hs set_archs slab_set sl_entries sl_next]. f_equal. f_equal. f_equal.
+    unfold slab_get in Ha. destruct (nget (sl_entries (w_archs w')) ai) as [[a0|]|] eqn:Hg; try discriminate. inversion Ha; subst a0.
+    eapply map_ashape_nset; [exact Hg|]. cbn [ashape]. now rewrite Hc, Hr, Hi, Hre.
+  - apply (fold_left_pres w_gev). intros w' [ai x]. repeat break_match; reflexivity.
+Qed.
+
+Section Ops2.
+Variable beh : hinfo -> logent -> N -> script.
+
+Lemma resolve_query_RInv q : forall w, RInv w -> RInv (res_world (resolve_query beh q w)).
+Proof.
+  induction q as [c|c|qs IH|q IH|l r IHl IHr|l r IHl IHr|q IH|q IH|q IH|] using query_ind'; intros w HR; cbn [resolve_query];
+    try (apply rbind_RInv; [now apply add_component_RInv|intros; assumption]);
+    try (apply rbind_RInv; [now apply IH|intros; assumption]);
+    try (apply rbind_RInv; [now apply IHl|intros ? w1 HR1; apply rbind_RInv; [now apply IHr|intros; assumption]]);
+    try exact HR.
+  apply rbind_RInv; [|intros; assumption].
+  revert w HR. induction IH as [|x t Hx _ IHt]; intros w HR; [exact HR|].
+  apply rbind_RInv; [now apply Hx|]. intros x' w1 HR1. apply rbind_RInv; [now apply IHt|intros; assumption].
+Qed.
+
+Lemma register_set_RInv evs : forall w, RInv w -> RInv (res_world (register_set beh evs w)).
+Proof.
+  induction evs as [|[t tag] rest IH]; intros w HR; cbn [register_set]; [exact HR|].
+  apply rbind_RInv.
+  - destruct t; [now apply add_targeted_event_RInv|now apply add_global_event_RInv].
+  - intros k w1 HR1. apply rbind_RInv; [now apply IH|intros; assumption].
+Qed.
+
+Lemma init_param_RInv p c w : RInv w -> RInv (res_world (init_param beh p c w)).
+Proof.
+  intros HR. destruct p; cbn [init_param].
+  - apply rbind_RInv; [now apply add_global_event_RInv|intros; assumption].
+  - apply rbind_RInv; [now apply add_targeted_event_RInv|]. intros k w1 HR1. apply rbind_RInv; [now apply resolve_query_RInv|intros; assumption].
+  - apply rbind_RInv; [now apply resolve_query_RInv|intros; assumption].
+  - apply rbind_RInv; [now apply register_set_RInv|intros; assumption].
+Qed.
+Lemma init_params_RInv ps : forall c w, RInv w -> RInv (res_world (init_params beh ps c w)).
+Proof.
+  induction ps as [|p t IH]; intros c w HR; cbn [init_params]; [exact HR|].
+  apply rbind_RInv; [now apply init_param_RInv|]. intros c1 w1 HR1. now apply IH.
+Qed.
+
+Theorem add_handler_RInv sh w : RInv w -> RInv (res_world (add_handler beh sh w)).
+Proof.
+  intros HR. unfold add_handler. destruct (match sh_tid sh with Some t => alookup t (w_hby w) | None => None end); [exact HR|].
+  apply rbind_RInv; [now apply init_params_RInv|]. intros c w1 HR1.
+  destruct (cf_recv c) as [|rv|]; try exact HR1. destruct (cf_access c) as [acc|]; [|exact HR1].
+  destruct (handler_conflicts (cf_cas c)); [|exact HR1].
+  destruct (insert_with _ (w_hs w1)) as [[k hs]|]; [|exact HR1].
+  apply rbind_RInv; [|intros; assumption]. apply send_global_RInv.
+  match goal with |- RInv (archs_register_handler ?w2 k) => destruct (archs_register_handler_structure w2 k) as [Hs Hg]; apply (RInv_structure w2); [exact Hs|exact Hg|] end.
+  exact HR1.
+Qed.
+End Ops2.
+
+(* ---------- removing handlers and events ---------- *)
+Lemma map_ashape_same (f : sentry -> sentry) l : (forall e, ashape (f e) = ashape e) -> map ashape (map f l) = map ashape l.
+Proof. intros H. rewrite map_map. apply map_ext. exact H. Qed.
+
+Lemma archs_remove_handler_structure w h : structure (archs_remove_handler w h) = structure w /\ w_gev (archs_remove_handler w h) = w_gev w.
+Proof.
+  unfold archs_remove_handler. split; [|reflexivity].
+  unfold structure. cbn [w_ents w_comps w_archs w_aby set_archs sl_entries sl_next]. f_equal. f_equal. f_equal.
+  apply map_ashape_same. intros [a|n]; reflexivity.
+Qed.
+
+Lemma gbi_remove {V} (m : smap V) k v m' i k' v' :
+  sm_remove k m = Some (v, m') -> get_by_index m' i = Some (k', v') -> get_by_index m i = Some (k', v').
+Proof.
+  unfold sm_remove, get_by_index. destruct (sget (slots m) (fst k)) as [s|] eqn:Es; [|discriminate].
+  destruct (gen s =? snd k); [|discriminate]. destruct (val s) as [v0|]; [|discriminate].
+  destruct (wrap_succ (gen s) =? 0); intros H; inversion H; subst; clear H; cbn [slots];
+    (destruct (N.eq_dec (fst k) i) as [<-|Hne];
+      [erewrite sget_supd_eq by eauto; cbn [val]; discriminate|now rewrite sget_supd_neq by auto]).
+Qed.
+
+Section Ops3.
+Variable beh : hinfo -> logent -> N -> script.
+
+Theorem remove_handler_RInv k w : RInv w -> RInv (res_world (remove_handler beh k w)).
+Proof.
+  intros HR. unfold remove_handler. destruct (sm_get k (w_hs w)) as [h0|]; [|exact HR]. clear h0.
+  apply rbind_RInv; [now apply send_global_RInv|]. intros [] w1 HR1.
+  unfold handlers_remove. destruct (sm_remove k (w_hs w1)) as [[h1 hs]|]; [|exact HR1]. cbn [res_world].
+  match goal with |- RInv (archs_remove_handler ?w2 h1) => destruct (archs_remove_handler_structure w2 h1) as [Hs Hg]; apply (RInv_structure w2); [exact Hs|exact Hg|] end.
+  exact HR1.
+Qed.
+Lemma remove_handlers_RInv ks : forall w, RInv w -> RInv (res_world (remove_handlers beh ks w)).
+Proof.
+  induction ks as [|k t IH]; intros w HR; cbn [remove_handlers]; [exact HR|].
+  apply rbind_RInv; [now apply remove_handler_RInv|]. intros b w1 HR1. now apply IH.
+Qed.
+Theorem remove_targeted_event_RInv k w : RInv w -> RInv (res_world (remove_targeted_event beh k w)).
+Proof.
+  intros HR. unfold remove_targeted_event. destruct (sm_get k (w_tev w)); [|exact HR].
+  apply rbind_RInv; [now apply send_global_RInv|]. intros [] w1 HR1.
+  apply rbind_RInv; [now apply remove_handlers_RInv|]. intros [] w2 HR2.
+  destruct (sm_remove k (w_tev w2)) as [[info m]|]; [|exact HR2]. cbn [res_world].
+  destruct (e_kind info); exact HR2.
+Qed.
+Theorem remove_global_event_RInv k w : RInv w -> RInv (res_world (remove_global_event beh k w)).
+Proof.
+  intros HR. unfold remove_global_event. destruct (sm_get k (w_gev w)); [|exact HR].
+  apply rbind_RInv; [now apply send_global_RInv|]. intros [] w1 HR1.
+  apply rbind_RInv; [now apply remove_handlers_RInv|]. intros [] w2 [HW2 HK2].
+  destruct (sm_remove k (w_gev w2)) as [[info m]|] eqn:Er; [|split; assumption]. cbn [res_world].
+  split; [exact HW2|]. intros i k' info' Hg. cbn [w_gev set_gev] in Hg. eapply HK2. eapply gbi_remove; eauto.
+Qed.
+Lemma remove_tevents_RInv ks : forall w, RInv w -> RInv (res_world (remove_tevents beh ks w)).
+Proof.
+  induction ks as [|k t IH]; intros w HR; cbn [remove_tevents]; [exact HR|].
+  apply rbind_RInv; [now apply remove_targeted_event_RInv|]. intros b w1 HR1. now apply IH.
+Qed.
+End Ops3.
+
+Lemma RInv_world0 fuel p : RInv (world0 fuel p).
+Proof.
+  split; [split; [apply StoreInv_world0|split]|].
+  - unfold GraphInv, world0, arch_at, aby_lookup. cbn [w_archs w_aby]. split; [|split; [|split; [|split; [|split]]]].
+    + exists []. split; [|constructor]. cbn [sl_entries sl_next]. change 1 with (nlen [SOcc empty_arch]). constructor.
+    + intros ai a Ha. unfold slab_get in Ha. cbn [sl_entries nget] in Ha. destruct (ai =? 0) eqn:E; [|discriminate].
+      apply N.eqb_eq in E. subst. inversion Ha; subst. reflexivity.
+    + intros cs ai H. cbn in H. destruct cs; [|discriminate]. inversion H; subst. exists empty_arch. split; reflexivity.
+    + intros ai a c d Ha Hl. unfold slab_get in Ha. cbn [sl_entries nget] in Ha. destruct (ai =? 0); [|discriminate]. inversion Ha; subst. discriminate.
+    + intros ai a c d Ha Hl. unfold slab_get in Ha. cbn [sl_entries nget] in Ha. destruct (ai =? 0); [|discriminate]. inversion Ha; subst. discriminate.
+    + intros ai a Ha. unfold slab_get in Ha. cbn [sl_entries nget] in Ha. destruct (ai =? 0); [|discriminate]. inversion Ha; subst. constructor.
+  - reflexivity.
+  - intros i k info H. discriminate.
+Qed.
